@@ -628,3 +628,9 @@ def inst_dada():
 _dr = Contract(f"{BR}.DADAStokesReader.read", spec_dada_read, inst_dada(), ("C11",), body=dada_read_body)
 _dr.no_bounded = True
 CONTRACTS.append(_dr)
+
+
+# statelessness: every read hands out memory of its own (never an array a cache keeps)
+for _c in CONTRACTS:
+    if _c.qualname.split("#")[0].split(".")[-1] in ("read", "dask_read", "_read_baseband", "_read_array", "_read_data"):
+        _c.fresh_result = True
